@@ -2226,7 +2226,7 @@ pub fn run(ctx: &Ctx) -> Evidence {
         }
     }
     // ---- B: random long histories with several stops each
-    let target_cuts = ctx.tier.pick(300, 4200);
+    let target_cuts = ctx.tier.pick(300, 9000);
     let mut cuts = 0;
     let mut i = 0u64;
     let mut prng = base_rng.fork(7);
